@@ -185,7 +185,22 @@ func finish(rec *httptest.ResponseRecorder, o *Out) {
 
 func (w *World) ctx() (context.Context, int) {
 	op := w.NextOp()
-	return context.WithValue(context.Background(), OpKey, op), op
+	ctx, cancel := context.WithCancel(context.WithValue(context.Background(), OpKey, op))
+	w.opMu.Lock()
+	w.cancels[op] = cancel
+	delete(w.cancels, op-64) // requests are short: forget old cancel functions
+	w.opMu.Unlock()
+	return ctx, op
+}
+
+// CancelOp ends the request context of operation op (the caller hung up / its deadline passed) while the request is being processed.
+func (w *World) CancelOp(op int) {
+	w.opMu.Lock()
+	cancel := w.cancels[op]
+	w.opMu.Unlock()
+	if cancel != nil {
+		cancel()
+	}
 }
 
 func recoverCrash(o *Out, w *World) {
